@@ -51,13 +51,13 @@ def runSpec (c : Ctx) (fs : FS) : RunResult :=
   if f.args.length < 2 then ⟨w0, some (.msg s%"not enough arguments")⟩
   else if f.remove && f.outFile ≠ [] then
     let w1 := eff w0 (.remove f.outFile)
-    match fs f.outFile with
-    | .absent => afterRemove c w1
-    | _ =>
-      match c.faults.remove with
-      | some .notExist => afterRemove c w1
-      | some e => ⟨w1, some e⟩
-      | none => afterRemove c { w1 with fs := setNode fs f.outFile .absent }
+    match c.faults.remove with
+    | some .notExist => afterRemove c w1
+    | some e => ⟨w1, some e⟩
+    | none =>
+      match fs f.outFile with
+      | .absent => afterRemove c w1
+      | _ => afterRemove c { w1 with fs := setNode fs f.outFile .absent }
   else afterRemove c w0
 
 end Moq.Cli
@@ -98,13 +98,13 @@ def phaseASpec (c : Ctx) (fs : FS) : Flow :=
   if f.args.length < 2 then .ret [.err (some (.msg s%"not enough arguments"))] w0
   else if f.remove && f.outFile ≠ [] then
     let w1 := eff w0 (.remove f.outFile)
-    match fs f.outFile with
-    | .absent => .next env0 w1
-    | _ =>
-      match c.faults.remove with
-      | some .notExist => .next env0 w1
-      | some e => .ret [.err (some e)] w1
-      | none => .next env0 { w1 with fs := setNode fs f.outFile .absent }
+    match c.faults.remove with
+    | some .notExist => .next env0 w1
+    | some e => .ret [.err (some e)] w1
+    | none =>
+      match fs f.outFile with
+      | .absent => .next env0 w1
+      | _ => .next env0 { w1 with fs := setNode fs f.outFile .absent }
   else .next env0 w0
 
 set_option maxRecDepth 8000 in
@@ -122,32 +122,23 @@ theorem phaseA_spec (c : Ctx) (fs : FS) :
     · by_cases ho : outFile = []
       · simp [phaseA, Generated.runProg, execL, execS, evalE, evalArgs, evalRhs, lookup, push, pop, callFn,
           fnName, selVal, flagField, env0, phaseASpec, hl, ho]
-      · cases hfs : fs outFile with
-        | absent =>
-          simp [phaseA, Generated.runProg, execL, execS, evalE, evalArgs, evalRhs, lookup, push, pop, callFn,
-            fnName, selVal, flagField, env0, phaseASpec, hl, ho, lhsNames, bindAll, define, assignVar, eff, hfs]
-        | file bytes =>
-          rcases faults with ⟨fr, fm, fw⟩
-          cases fr with
-          | none => simp [phaseA, Generated.runProg, execL, execS, evalE, evalArgs, evalRhs, lookup, push, pop, callFn,
-            fnName, selVal, flagField, env0, phaseASpec, hl, ho, lhsNames, bindAll, define, assignVar, eff, hfs]
-          | some e =>
-            cases e with
-            | notExist => simp [phaseA, Generated.runProg, execL, execS, evalE, evalArgs, evalRhs, lookup, push, pop, callFn,
-            fnName, selVal, flagField, env0, phaseASpec, hl, ho, lhsNames, bindAll, define, assignVar, eff, hfs]
-            | msg m => simp [phaseA, Generated.runProg, execL, execS, evalE, evalArgs, evalRhs, lookup, push, pop, callFn,
-            fnName, selVal, flagField, env0, phaseASpec, hl, ho, lhsNames, bindAll, define, assignVar, eff, hfs]
-        | dir =>
-          rcases faults with ⟨fr, fm, fw⟩
-          cases fr with
-          | none => simp [phaseA, Generated.runProg, execL, execS, evalE, evalArgs, evalRhs, lookup, push, pop, callFn,
-            fnName, selVal, flagField, env0, phaseASpec, hl, ho, lhsNames, bindAll, define, assignVar, eff, hfs]
-          | some e =>
-            cases e with
-            | notExist => simp [phaseA, Generated.runProg, execL, execS, evalE, evalArgs, evalRhs, lookup, push, pop, callFn,
-            fnName, selVal, flagField, env0, phaseASpec, hl, ho, lhsNames, bindAll, define, assignVar, eff, hfs]
-            | msg m => simp [phaseA, Generated.runProg, execL, execS, evalE, evalArgs, evalRhs, lookup, push, pop, callFn,
-            fnName, selVal, flagField, env0, phaseASpec, hl, ho, lhsNames, bindAll, define, assignVar, eff, hfs]
+      · rcases faults with ⟨fr, fm, fw⟩
+        cases fr with
+        | some e =>
+          have hfs : True := trivial
+          cases e with
+          | notExist => simp [phaseA, Generated.runProg, execL, execS, evalE, evalArgs, evalRhs, lookup, push, pop, callFn,
+              fnName, selVal, flagField, env0, phaseASpec, hl, ho, lhsNames, bindAll, define, eff, hfs]
+          | msg m => simp [phaseA, Generated.runProg, execL, execS, evalE, evalArgs, evalRhs, lookup, push, pop, callFn,
+              fnName, selVal, flagField, env0, phaseASpec, hl, ho, lhsNames, bindAll, define, eff, hfs]
+        | none =>
+          cases hfs : fs outFile with
+          | absent => simp [phaseA, Generated.runProg, execL, execS, evalE, evalArgs, evalRhs, lookup, push, pop, callFn,
+              fnName, selVal, flagField, env0, phaseASpec, hl, ho, lhsNames, bindAll, define, eff, hfs]
+          | file bytes => simp [phaseA, Generated.runProg, execL, execS, evalE, evalArgs, evalRhs, lookup, push, pop, callFn,
+              fnName, selVal, flagField, env0, phaseASpec, hl, ho, lhsNames, bindAll, define, eff, hfs]
+          | dir => simp [phaseA, Generated.runProg, execL, execS, evalE, evalArgs, evalRhs, lookup, push, pop, callFn,
+              fnName, selVal, flagField, env0, phaseASpec, hl, ho, lhsNames, bindAll, define, eff, hfs]
 
 set_option maxRecDepth 8000 in
 set_option maxHeartbeats 3200000 in
@@ -215,22 +206,16 @@ theorem run_eq_spec (c : Ctx) (fs : FS) : run Generated.runProg c fs = some (run
   · simp only [hl, if_false]
     by_cases hr : (c.flags.remove && decide (c.flags.outFile ≠ [])) = true
     · simp only [hr, if_true]
-      cases hfs : fs c.flags.outFile with
-      | absent => simp [phaseB_spec c _ hl]
-      | file b =>
-        cases hf : c.faults.remove with
-        | none => simp [phaseB_spec c _ hl]
-        | some e =>
-          cases e with
-          | notExist => simp [phaseB_spec c _ hl]
-          | msg m => simp
-      | dir =>
-        cases hf : c.faults.remove with
-        | none => simp [phaseB_spec c _ hl]
-        | some e =>
-          cases e with
-          | notExist => simp [phaseB_spec c _ hl]
-          | msg m => simp
+      cases hf : c.faults.remove with
+      | some e =>
+        cases e with
+        | notExist => simp [phaseB_spec c _ hl]
+        | msg m => simp
+      | none =>
+        cases hfs : fs c.flags.outFile with
+        | absent => simp [phaseB_spec c _ hl]
+        | file b => simp [phaseB_spec c _ hl]
+        | dir => simp [phaseB_spec c _ hl]
     · simp only [hr]
       simp [phaseB_spec c _ hl]
 
